@@ -6,7 +6,7 @@ EXTENDS ArrayRules
 \* ------------------------------------------------------------------ the lattice
 BinCase(f, op, lu, ru, ldt, rdt, rk, ls, rs) == [fam |-> f, op |-> op, lu |-> lu, ru |-> ru, ldt |-> ldt, rdt |-> rdt, rk |-> rk, ls |-> ls, rs |-> rs]
 F_Units  == {BinCase("units", op, i, j, "f8", "f8", "arr", "s2", "s2") : op \in Arith \cup Cmp, i \in 1..NPool, j \in 1..NPool}
-F_Dtypes == {BinCase("dtypes", op, i, j, a, b, "arr", "s2", "s2") : op \in Arith \cup Cmp, i \in {IdxOf("m")}, j \in {IdxOf("m"), IdxOf("cm"), IdxOf("s")}, a \in Dts, b \in Dts}
+F_Dtypes == {BinCase("dtypes", op, i, j, a, b, "arr", "s2", "s2") : op \in Arith \cup Cmp, i \in {IdxOf("m"), IdxOf("cm")}, j \in {IdxOf("m"), IdxOf("cm"), IdxOf("s")}, a \in Dts, b \in Dts}
             \cup {BinCase("dtypes", op, i, i, a, b, "arr", "s2", "s2") : op \in Arith \cup Cmp, i \in {IdxOf("1")}, a \in Dts, b \in Dts}
 F_Kinds  == {BinCase("kinds", op, i, j, a, "f8", rk, "s2", IF rk \in {"int", "float", "nd0"} THEN "s0" ELSE "s2") :
                op \in Arith \cup Cmp, i \in {IdxOf("m"), IdxOf("1"), IdxOf("m/cm")}, j \in {IdxOf("m"), IdxOf("cm"), IdxOf("s"), IdxOf("1")}, a \in {"f8", "i8", "f4"}, rk \in RhsKinds \ {"arr"}}
@@ -24,9 +24,17 @@ F_Np     == {[fam |-> "np", f |-> f, lu |-> i, ru |-> i, rk |-> "none", ldt |-> 
             \cup {[fam |-> "np", f |-> f, lu |-> i, ru |-> j, rk |-> rk, ldt |-> a, ls |-> "s2"] :
                     f \in Keep2 \cup Pred2 \cup Trans2 \cup KeepSeq, i \in SmallPool, j \in SmallPool \cup {IdxOf("km")}, rk \in NpArgKinds, a \in {"f8", "f4", "i8"}}
             \cup {[fam |-> "np", f |-> f, lu |-> i, ru |-> j, rk |-> "out", ldt |-> "f8", ls |-> "s2"] : f \in {"add", "multiply", "sqrt", "maximum", "less"}, i \in SmallPool, j \in {IdxOf("s")}}
+\* short histories on ONE Array object: a unit-transforming function, an in-place change of the Array's unit, and a
+\* unit-transforming function again - the second result follows the unit the Array has THEN (nothing about an Array's
+\* unit may be remembered across calls)
+HistFns == {"sqrt", "square", "reciprocal"}
+F_NpHist == {[fam |-> "nphist", f1 |-> f1, mut |-> m, f2 |-> f2, lu |-> i, ldt |-> "f8", ls |-> "s2"] :
+               f1 \in HistFns, m \in {"imul", "out", "setter", "idiv"}, f2 \in HistFns, i \in {IdxOf("m"), IdxOf("s"), IdxOf("m2")}}
+UnitAfter(m, u) == CASE m \in {"imul", "out"} -> UMul(u, u) [] m = "idiv" -> Unit0 [] m = "setter" -> UPow(U1("kg"), 2)
+Tr(f, u) == CASE f = "sqrt" -> URoot(u, 2) [] f = "square" -> UPow(u, 2) [] f = "reciprocal" -> UInv(u)
 CONSTANT Fams       \* the families a run enumerates (a check only needs those that decide its property)
 FamSet(f) == CASE f = "units" -> F_Units [] f = "dtypes" -> F_Dtypes [] f = "kinds" -> F_Kinds [] f = "shapes" -> F_Shapes [] f = "logic" -> F_Logic
-               [] f = "unary" -> F_Unary [] f = "to" -> F_To [] f = "chain" -> F_Chain [] f = "np" -> F_Np
+               [] f = "unary" -> F_Unary [] f = "to" -> F_To [] f = "chain" -> F_Chain [] f = "np" -> F_Np \cup F_NpHist
 LaneCases(k) == UNION {{c \in FamSet(f) : (c.lu * 7 + (IF "ru" \in DOMAIN c THEN c.ru ELSE 0)) % NL = k} : f \in Fams}
 
 OutcomeOf(c) ==
@@ -35,6 +43,7 @@ OutcomeOf(c) ==
     [] c.fam = "to" -> ToOutcome(c.lu, c.ru)
     [] c.fam = "chain" -> [ab |-> ToOutcome(c.lu, c.mu), bc |-> ToOutcome(c.mu, c.ru), ac |-> ToOutcome(c.lu, c.ru)]
     [] c.fam = "np" -> NpOutcome(c)
+    [] c.fam = "nphist" -> [raises |-> FALSE, bool |-> FALSE, unit |-> Sparse(Tr(c.f2, UnitAfter(c.mut, PU(c.lu))))]
 
 VARIABLES lane, case
 vars == <<lane, case>>
